@@ -50,7 +50,7 @@ OPS = ["set_curve", "generate", "generate", "load_priv_obj",
 
 def budget(tier):
     if tier == "quick":
-        return dict(runs=16000, wall=75, chunk=200)
+        return dict(runs=12000, wall=75, chunk=150)
     return dict(runs=400000, wall=840, chunk=600)
 
 
@@ -95,7 +95,8 @@ def generate(run_seed, tier):
             op["how"] = r.choice(["obj_novalidate", "bytes", "der"])
             op["byz"] = r.choice(["low_order", "low_order", "offcurve",
                                   "subgroup", "alias"])
-            op["enc"] = r.choice(["raw", "uncompressed", "hybrid"])
+            op["enc"] = r.choice(["raw", "uncompressed", "hybrid",
+                                  "compressed"])
         if name == "exchange":
             op["dA"] = libx.key_scalar(r, a.n)
             op["dB"] = libx.key_scalar(r, a.n)
@@ -138,10 +139,11 @@ def execute(prog):
             toys.append(c)
     curves["none"] = None
     log = []
-    real_os = lu.os
+    real_os = getattr(lu, "os", None)
     dev = world.SimEntropy("uniform", r=random.Random(
         prog["ops"][0]["fseed"] if prog["ops"] else 1))
-    lu.os = _OS(real_os, dev)
+    if real_os is not None:
+        lu.os = _OS(real_os, dev)
 
     def fail(oracle, site, msg, detail=None):
         raise core.Violation(core.violation(ID, oracle, site, msg, detail))
@@ -446,6 +448,13 @@ def execute(prog):
                         if enc == "raw":
                             data = _enc_any(tgt, P, "uncompressed")
                         data = mder.spki(tgt.oid, data)
+                    if enc == "compressed" and tgt.plen > 1:
+                        # what the compressed form denotes is decided by the
+                        # model's decoder (x must be in range and a residue)
+                        st, val = ec.decode_point(tgt, _enc_any(tgt, P, enc))
+                        why = None if st == "ok" else val
+                        if st == "ok":
+                            P = val
                     saved = m.pub
                     if why is None:
                         want = load_pub_model(m, m.curve, P)
@@ -581,7 +590,8 @@ def execute(prog):
     except core.Violation as v:
         out["violation"] = v.v
     finally:
-        lu.os = real_os
+        if real_os is not None:
+            lu.os = real_os
         for c in toys:
             try:
                 lc.curves.remove(c)
@@ -643,4 +653,8 @@ def _enc_any(mc, P, enc):
         return xs + ys
     if enc == "uncompressed":
         return b"\x04" + xs + ys
+    if enc == "compressed":
+        if L == 1:
+            return b"\x04" + xs + ys   # collides with raw on 1-byte fields
+        return bytes([2 + (y & 1)]) + xs
     return bytes([6 + (y & 1)]) + xs + ys
